@@ -201,10 +201,13 @@ def run_case(case):
     import pandas as pd
     fin_pts = pts[np.isfinite(pts)]
     lab = np.argsort((np.arange(len(fin_pts)) * 7919) % len(fin_pts), kind='stable')
-    for meth in ('cumulative_distribution', 'probability_density'):
+    qser = np.array([0.9, 0.05, 0.5, 0.25, 0.75, 0.6, 0.1, 0.35])
+    for meth in ('cumulative_distribution', 'probability_density', 'percent_point'):
         try:
-            a = np.asarray(getattr(model, meth)(fin_pts.copy()), float)
-            b = np.asarray(getattr(model, meth)(pd.Series(fin_pts.copy(), index=lab)), float)
+            arg = qser if meth == 'percent_point' else fin_pts
+            lab_ = np.argsort((np.arange(len(arg)) * 7919) % len(arg), kind='stable') + (100 if meth == 'percent_point' else 0)
+            a = np.asarray(getattr(model, meth)(arg.copy()), float)
+            b = np.asarray(getattr(model, meth)(pd.Series(arg.copy(), index=lab_)), float)
             r.tr(2)
             if a.shape != b.shape or not np.array_equal(a, b, equal_nan=True):
                 r.violation(f'{sig}:container-dependence:{meth}', f'{tag}: {meth} of a Series with a permuted index differs from '
@@ -384,6 +387,18 @@ def _const(r, model, c, sig, tag, case):
                     case=case)
     if not (np.all(ppf == c) and ppf.shape == (5,)):
         r.violation(f'{sig}:constant:ppf', f'{tag}: percent_point = {ppf.tolist()}, expected all {c}', case=case)
+    # the point mass sits at c whatever the dtype of the probability array (integer 0 / 1, float16, float32)
+    for pname, probs in (('int64 [0, 1]', np.array([0, 1])), ('float16', np.array([0.25, 0.5, 1.0], dtype=np.float16)),
+                         ('float32', np.array([0.0, 0.75], dtype=np.float32))):
+        try:
+            q = np.asarray(model.percent_point(probs), float)
+            r.tr()
+            if not (q.shape == (len(probs),) and np.all(q == c)):
+                r.violation(f'{sig}:constant:ppf:probability-dtype', f'{tag}: percent_point of {pname} probabilities = {q.tolist()}, '
+                            f'expected all {c}', case=case)
+        except Exception as e:
+            r.violation(f'{sig}:constant:raises:{type(e).__name__}', f'{tag}: percent_point of {pname} probabilities raised '
+                        f'{type(e).__name__}: {e}', case=case)
     if not (s1.shape == (1,) and s7.shape == (7,) and np.all(s1 == c) and np.all(s7 == c)):
         r.violation(f'{sig}:constant:sample', f'{tag}: sample(1)={s1.tolist()}, sample(7)={s7.tolist()}, expected {c}',
                     case=case)
